@@ -281,6 +281,8 @@ struct DefRes {
     cut_points: usize,
     pair_cuts: usize,
     stalls_fired: usize,
+    backsteps_fired: usize,
+    wall_reads: usize,
     value_claims: usize,
     degree_claims: usize,
     violation: Option<(String, String, Value)>,
@@ -292,6 +294,8 @@ struct DefRes {
 #[derive(Clone)]
 struct Sched {
     stalls: Vec<(usize, i64)>,
+    /// the wall clock steps back (NTP correction, VM resume) at these clock reads
+    wall_back: Vec<(usize, i64)>,
     permille: u32,
     label: String,
 }
@@ -300,14 +304,14 @@ fn one(scratch: &std::path::Path, seed: u64, i: usize, keys: usize, pairs: usize
     let path = scratch.join(format!("def{i}.circom"));
     let (src, curve_idx) = gen_source(seed, i);
     let prelude = gen_prelude(seed, i);
-    let mut res = DefRes { evals: 0, usable: false, reads: 0, cut_points: 0, pair_cuts: 0, stalls_fired: 0, value_claims: 0, degree_claims: 0, violation: None, sim_ns: 0, facts_lost_by_cut: 0, pass_claims: 0 };
+    let mut res = DefRes { evals: 0, usable: false, reads: 0, cut_points: 0, pair_cuts: 0, stalls_fired: 0, backsteps_fired: 0, wall_reads: 0, value_claims: 0, degree_claims: 0, violation: None, sim_ns: 0, facts_lost_by_cut: 0, pass_claims: 0 };
     let mut rk = Rng::new(seed).sub_n("C20-sched", i as u64);
     for _ki in 0..keys {
         let key = rk.bytes16();
         let clock_seed = rk.next_u64();
         let oracle_seed = rk.next_u64();
         let mut run = |sched: &Sched, res: &mut DefRes| -> Option<(Eval, usize)> {
-            let plan = SimPlan { key, clock_seed, max_step_ns: 50_000, stalls: sched.stalls.clone(), stall_permille: sched.permille };
+            let plan = SimPlan { key, clock_seed, max_step_ns: 50_000, stalls: sched.stalls.clone(), stall_permille: sched.permille, wall_back: sched.wall_back.clone() };
             let s = src.clone();
             let pre = prelude.clone();
             let pth = path.clone();
@@ -315,10 +319,12 @@ fn one(scratch: &std::path::Path, seed: u64, i: usize, keys: usize, pairs: usize
             res.evals += 1;
             res.sim_ns += stats.sim_ns;
             res.stalls_fired += stats.stalls_fired;
+            res.backsteps_fired += stats.backsteps_fired;
+            res.wall_reads += stats.wall_reads;
             let replay = |sig: &str| {
                 json!({"kind": "C20", "seed": seed, "index": i, "source": src, "prelude": prelude, "curve": CURVES[curve_idx],
                        "hashkey": key.iter().map(|b| format!("{b:02x}")).collect::<String>(), "clock_seed": clock_seed, "oracle_seed": oracle_seed,
-                       "stalls": sched.stalls, "stall_permille": sched.permille, "schedule": sched.label, "signature": sig,
+                       "stalls": sched.stalls, "wall_back": sched.wall_back, "stall_permille": sched.permille, "schedule": sched.label, "signature": sig,
                        "valuations": valuations, "lines": lines})
             };
             match out {
@@ -333,10 +339,10 @@ fn one(scratch: &std::path::Path, seed: u64, i: usize, keys: usize, pairs: usize
                     Some((e, stats.clock_reads))
                 }
                 SimResult::Panic(p) => {
-                    if stats.stalls_fired > 0 {
+                    if stats.stalls_fired > 0 || stats.backsteps_fired > 0 {
                         let site: String = p.split(": ").next().unwrap_or("").rsplit('/').next().unwrap_or("").split(':').next().unwrap_or("").to_string();
                         let head: String = p.splitn(2, ": ").nth(1).unwrap_or("").chars().take(40).collect();
-                        let sig = format!("cut:panic:{site}:{head}");
+                        let sig = format!("{}:panic:{site}:{head}", if stats.stalls_fired > 0 { "cut" } else { "clock-step" });
                         if res.violation.is_none() {
                             res.violation = Some((sig.clone(), format!("schedule {}: the run does not complete normally: {p}", sched.label), replay(&sig)));
                         }
@@ -346,7 +352,7 @@ fn one(scratch: &std::path::Path, seed: u64, i: usize, keys: usize, pairs: usize
             }
         };
         // fault-free configuration (cut = fixpoint)
-        let free = Sched { stalls: vec![], permille: 0, label: "no stall".into() };
+        let free = Sched { stalls: vec![], wall_back: vec![], permille: 0, label: "no stall".into() };
         let Some((e0, reads)) = run(&free, &mut res) else { return res }; // panics without any fault are C01's business
         if !e0.lifted {
             return res;
@@ -360,7 +366,7 @@ fn one(scratch: &std::path::Path, seed: u64, i: usize, keys: usize, pairs: usize
         }
         // every single cut index
         for j in 1..reads {
-            let s = Sched { stalls: vec![(j, 11_000_000_000 + rk.below(3_600_000_000_000) as i64)], permille: 0, label: format!("stall at clock read {j} of {reads}") };
+            let s = Sched { stalls: vec![(j, 11_000_000_000 + rk.below(3_600_000_000_000) as i64)], wall_back: vec![], permille: 0, label: format!("stall at clock read {j} of {reads}") };
             if let Some((e, _)) = run(&s, &mut res) {
                 res.cut_points += 1;
                 res.value_claims += e.value_claims_checked;
@@ -381,7 +387,7 @@ fn one(scratch: &std::path::Path, seed: u64, i: usize, keys: usize, pairs: usize
             }
             let j1 = 1 + rk.usize(reads - 2);
             let j2 = j1 + 1 + rk.usize(reads - j1);
-            let s = Sched { stalls: vec![(j1, 11_000_000_000), (j2, 11_000_000_000)], permille: 0, label: format!("stalls at clock reads {j1} and {j2} of {reads}") };
+            let s = Sched { stalls: vec![(j1, 11_000_000_000), (j2, 11_000_000_000)], wall_back: vec![], permille: 0, label: format!("stalls at clock reads {j1} and {j2} of {reads}") };
             if run(&s, &mut res).is_some() {
                 res.pair_cuts += 1;
             }
@@ -389,9 +395,28 @@ fn one(scratch: &std::path::Path, seed: u64, i: usize, keys: usize, pairs: usize
                 return res;
             }
         }
+        // the wall clock steps back between two reads (alone, and before a stall): whichever
+        // clock the time box is measured on, the run completes and its claims stay sound
+        for _ in 0..pairs.min(4) {
+            if reads < 3 {
+                break;
+            }
+            let j1 = 1 + rk.usize(reads - 1);
+            let back = *rk.pick(&[2_000_000_000i64, 3_600_000_000_000, 86_400_000_000_000]);
+            let mut s = Sched { stalls: vec![], wall_back: vec![(j1, back)], permille: 0, label: format!("wall clock steps back {} s at clock read {j1} of {reads}", back / 1_000_000_000) };
+            if rk.chance(1, 2) && j1 + 1 < reads {
+                let j2 = j1 + 1 + rk.usize(reads - j1 - 1);
+                s.stalls.push((j2, 11_000_000_000));
+                s.label.push_str(&format!(", stall at read {j2}"));
+            }
+            let _ = run(&s, &mut res);
+            if res.violation.is_some() {
+                return res;
+            }
+        }
         // random per-read stall rates
         for pm in [20u32, 100, 500, 1000] {
-            let s = Sched { stalls: vec![], permille: pm, label: format!("every clock read stalls with probability {pm}/1000") };
+            let s = Sched { stalls: vec![], wall_back: vec![], permille: pm, label: format!("every clock read stalls with probability {pm}/1000") };
             let _ = run(&s, &mut res);
             if res.violation.is_some() {
                 return res;
@@ -469,7 +494,8 @@ pub fn run(env: &Env) -> i32 {
     cov.insert("degree_claims_judged".into(), json!(results.iter().map(|r| r.degree_claims).sum::<usize>()));
     cov.insert("simulated_seconds".into(), json!(results.iter().map(|r| r.sim_ns as i128).sum::<i128>() as f64 / 1e9));
     cov.insert("runs_per_hour".into(), json!((evals as f64 / wall * 3600.0) as u64));
-    cov.insert("fault_kinds_fired".into(), json!({"hash-key": evals, "clock-fine": evals, "clock-stall": results.iter().map(|r| r.stalls_fired).sum::<usize>()}));
+    cov.insert("fault_kinds_fired".into(), json!({"hash-key": evals, "clock-fine": evals, "clock-stall": results.iter().map(|r| r.stalls_fired).sum::<usize>(), "wall-clock-back-step": results.iter().map(|r| r.backsteps_fired).sum::<usize>()}));
+    cov.insert("wall_clock_reads_by_the_code_under_test".into(), json!(results.iter().map(|r| r.wall_reads).sum::<usize>()));
     crate::report::add_probes(
         &mut cov,
         &[
@@ -514,6 +540,7 @@ fn replay_signature(v: &Value, src: &str) -> Option<String> {
         max_step_ns: 50_000,
         stalls,
         stall_permille: v["stall_permille"].as_u64().unwrap_or(0) as u32,
+        wall_back: serde_json::from_value(v["wall_back"].clone()).unwrap_or_default(),
     };
     let curve_idx = CURVES.iter().position(|c| Some(*c) == v["curve"].as_str()).unwrap_or(0);
     let oracle_seed = v["oracle_seed"].as_u64().unwrap_or(0);
@@ -528,10 +555,10 @@ fn replay_signature(v: &Value, src: &str) -> Option<String> {
     match out {
         SimResult::Ok(e) => e.verdict.map(|(k, _)| format!("{}:{k}", if stats.stalls_fired > 0 { "cut" } else { "fixpoint" })),
         SimResult::Panic(p) => {
-            if stats.stalls_fired > 0 {
+            if stats.stalls_fired > 0 || stats.backsteps_fired > 0 {
                 let site: String = p.split(": ").next().unwrap_or("").rsplit('/').next().unwrap_or("").split(':').next().unwrap_or("").to_string();
                 let head: String = p.splitn(2, ": ").nth(1).unwrap_or("").chars().take(40).collect();
-                Some(format!("cut:panic:{site}:{head}"))
+                Some(format!("{}:panic:{site}:{head}", if stats.stalls_fired > 0 { "cut" } else { "clock-step" }))
             } else {
                 None
             }
